@@ -3,7 +3,7 @@ Proofs/TMSim.lean — the extended-tape simulation (`Model/TMSim.lean`) against 
 multitape run.
 -/
 import AutomataVerif.Proofs.TMAgree
-import AutomataVerif.Model.TMSim
+import AutomataVerif.Spec.TMSim
 
 namespace AV.TM
 set_option linter.unusedSectionVars false
@@ -198,9 +198,6 @@ end Head
 
 /-! ### scanning -/
 
-/-- No symbol of `l` is the head mark or the separator. -/
-def Clean (hd sep : Γ) (l : List Γ) : Prop := ∀ x ∈ l, x ≠ hd ∧ x ≠ sep
-
 theorem Clean.append {hd sep : Γ} {a b : List Γ} (ha : Clean hd sep a) (hb : Clean hd sep b) :
     Clean hd sep (a ++ b) := by
   intro x hx
@@ -277,14 +274,6 @@ theorem scan_head (fuel : Nat) (P S : List Γ) (c : Γ) :
 end Scan
 
 /-! ### the encoding of tapes -/
-
-/-- A virtual tape on the extended tape: the cells, the head mark right after the scanned
-cell, the separator at the end. -/
-def encTape (hd sep : Γ) (t : Tape Γ) : List Γ :=
-  t.cells.take (t.pos + 1) ++ hd :: t.cells.drop (t.pos + 1) ++ [sep]
-
-/-- The extended tape of a tuple of tapes. -/
-def encode (hd sep : Γ) (ts : List (Tape Γ)) : List Γ := ts.flatMap (encTape hd sep)
 
 /-- A tape given by the cells left of the head, the scanned cell, the cells right of it. -/
 def Tape.ofZip (A : List Γ) (c : Γ) (B : List Γ) (b : Γ) : Tape Γ :=
@@ -477,13 +466,6 @@ end Step
 
 /-! ### all moves of one transition -/
 
-/-- A tape the simulation can represent: class invariant, the machine's blank, no cell equal
-to the head mark or the separator. -/
-structure GoodTape (hd sep b : Γ) (t : Tape Γ) : Prop where
-  wf : t.WF
-  blank : t.blank = b
-  clean : Clean hd sep t.cells
-
 theorem Tape.ofZip_read (A : List Γ) (c : Γ) (B : List Γ) (b : Γ) : (Tape.ofZip A c B b).read = c := by
   simp [Tape.ofZip, Tape.read]
 
@@ -559,10 +541,6 @@ theorem scan_tape (hne : sep ≠ hd) (hb : b ≠ hd ∧ b ≠ sep) (s : Γ) (hs 
   have hf : fuel = (fuel - (A.length + B.length + 4)) + (A.length + B.length + 4) := by omega
   rw [hf, encTape_ofZip]
   exact scan_zip hd sep b hne hb s hs d A c B hA hc hB done rest hdone _
-
-/-- The moves of one transition, applied tape by tape (`zip(moves, tapes)`). -/
-def stepTapes (moves : List (Γ × Dir)) (ts : List (Tape Γ)) : List (Tape Γ) :=
-  List.zipWith (fun (m : Γ × Dir) (tp : Tape Γ) => (tp.write m.1).move m.2) moves ts
 
 theorem encode_cons (t : Tape Γ) (ts : List (Tape Γ)) :
     encode hd sep (t :: ts) = encTape hd sep t ++ encode hd sep ts := by
@@ -736,32 +714,7 @@ theorem genRun_sim {S S' Y Y' Z : Type} (r : S → Resume S Y) (r' : S' → Resu
         obtain ⟨h1, h2⟩ := ih t t' hh.2
         simp [hh.1, h1, h2]
 
-/-- Domain of C17: a valid machine with at least one tape whose tape alphabet avoids the two
-marks of the extended tape. -/
-structure SimDomain (M : MNTM σ Γ) (hd sep : Γ) : Prop where
-  valid : M.validate = .ok ()
-  ntapes : 1 ≤ M.nTapes
-  marks : sep ≠ hd
-  alphabet : ∀ a ∈ M.tapeSyms, a ≠ hd ∧ a ≠ sep
-
-/-- A native configuration the simulation can represent. -/
-structure GoodCfg (M : MNTM σ Γ) (hd sep : Γ) (c : MCfg σ Γ) : Prop where
-  len : c.tapes.length = M.nTapes
-  tapes : ∀ t ∈ c.tapes, GoodTape hd sep M.blank t
-
-/-- State and extended tape of a queue entry (the recorded head index plays no role). -/
-def strip (e : SimEntry σ Γ) : σ × List Γ := (e.1, e.2.1)
-
-/-- The queue entry standing for a native configuration. -/
-def encS (hd sep : Γ) (c : MCfg σ Γ) : σ × List Γ := (c.state, encode hd sep c.tapes)
-
 namespace MNTM
-
-/-- Successors in the order of the transition list (the order of the simulation's queue). -/
-def succL (M : MNTM σ Γ) (c : MCfg σ Γ) : List (MCfg σ Γ) :=
-  ((M.getTransition c.state c.tapes).getD []).map (apply c.tapes)
-
-def accF (M : MNTM σ Γ) (c : MCfg σ Γ) : Bool := decide (c.state ∈ M.finals)
 
 theorem mem_succ_iff_succL (M : MNTM σ Γ) (c x : MCfg σ Γ) : x ∈ M.succ c ↔ x ∈ M.succL c := by
   unfold succ succL children
